@@ -142,11 +142,14 @@ def run_check(P, pid, tier, seed, t0, a):
     rng = Rng(seed).fork(pid)
     # ---------------------------------------------------------------- T: traces
     tres = None
-    if hasattr(P, "trace_ops") and P.trace_ops:
+    from .tracetab import TRACE
+    if TRACE.get(pid):
         from . import trace
         tres = trace.run_trace(P, pid, tier, rng.fork("trace"))
         for f in tres["failed"]:
             notes.append(f"trace obligation failed: {f}")
+        log(f"[{pid}] T: {tres['obligations']} kernels traced from the source ({tres['nodes']} nodes), "
+            f"{tres['discharged']} obligations re-checked, {len(tres['failed'])} failed")
 
     # ---------------------------------------------------------------- D
     cases = corpus_cases(pid)
